@@ -499,7 +499,10 @@ EVIL_PATHS = [b'//outside/secret.txt', b'/../outside/secret.txt', b'../outside/s
               b'/./../outside/secret.txt', b'///outside/secret.txt', b'/a/../../outside/secret.txt',
               b'..', b'/..', b'//', b'//..', b'/sub/../../outside/new', b'//outside/new', b'outside/secret.txt',
               b'////outside/secret.txt', b'/sub/l', b'/l', b'/l/secret.txt', b'/sub/l/outside/secret.txt',
-              b'/l/outside/secret.txt', b'/l/new', b'/sub', b'/sub/f', b'/f', b'/sub/d2', b'/d3']
+              b'/l/outside/secret.txt', b'/l/new', b'/sub', b'/sub/f', b'/f', b'/sub/d2', b'/d3',
+              # siblings of the root whose names have the root's name as a string prefix
+              b'//root-private/secret.txt', b'/../root-private/secret.txt', b'/../root2/secret.txt',
+              b'/l/root-private/secret.txt', b'/sub/l/secret.txt', b'/l/new2']
 
 
 def gen_history(rng: Any) -> List[Tuple[str, bytes, bytes]]:
@@ -509,7 +512,9 @@ def gen_history(rng: Any) -> List[Tuple[str, bytes, bytes]]:
         a = rng.choice(EVIL_PATHS) if rng.random() < 0.8 else gen_path(rng)
         b = rng.choice(EVIL_PATHS) if rng.random() < 0.8 else gen_path(rng)
         if op == 'symlink' and rng.random() < 0.6:
-            a = rng.choice([b'..', b'../..', b'../outside', b'.', b'../sub/..', b'/..', b'//outside', b'x/../..'])
+            a = rng.choice([b'..', b'../..', b'../outside', b'.', b'../sub/..', b'/..', b'//outside', b'x/../..',
+                            b'../root-private', b'../../root-private', b'../root2', b'../../root2',
+                            b'../root-private/secret.txt', b'../root/../root-private'])
         h.append((op, a, b))
     return h
 
@@ -520,6 +525,10 @@ def make_world(base: str) -> Tuple[str, str]:
     os.makedirs(os.path.join(base, 'outside'))
     with open(os.path.join(base, 'outside', 'secret.txt'), 'wb') as f:
         f.write(SECRET)
+    for sib in ('root-private', 'root2'):           # a containment test by bare string prefix accepts these
+        os.makedirs(os.path.join(base, sib))
+        with open(os.path.join(base, sib, 'secret.txt'), 'wb') as f:
+            f.write(SECRET)
     with open(os.path.join(root, 'f'), 'wb') as f:
         f.write(b'inside-f')
     with open(os.path.join(root, 'sub', 'f'), 'wb') as f:
@@ -606,18 +615,31 @@ def history_signature(history: List[Tuple[str, bytes, bytes]]) -> str:
     sig = 'sftp-server-escape:' + '+'.join(kinds)
     if rel_up and any(k in kinds for k in ('rename', 'posix_rename')) and 'symlink' in kinds:
         sig = 'sftp-server-escape:relative-symlink-moved-by-rename'
+    links = [b for op, _a, b in history if op == 'symlink']
+    for i, (op, a, b) in enumerate(history):
+        if op == 'symlink' and not a.startswith(b'/') and b'..' in a and \
+                any(b.startswith(l.rstrip(b'/') + b'/') for l in links if l != b):
+            # a relative link created at a path that itself runs through an earlier link: it lands at the
+            # physical location while the containment test was made lexically
+            sig = 'sftp-server-escape:symlink-created-through-symlink'
     return sig
 
 
 HISTORY_CORPUS = [
     [('symlink', b'..', b'/sub/l'), ('rename', b'/sub/l', b'/l'), ('read', b'/l/outside/secret.txt', b'')],
     [('symlink', b'..', b'/sub/l'), ('posix_rename', b'/sub/l', b'/l'), ('write', b'/l/outside/new', b'')],
+    [('symlink', b'/', b'/sub/sl'), ('symlink', b'../outside', b'/sub/sl/evil'), ('read', b'/sub/sl/evil/secret.txt', b'')],
     [('read', b'//outside/secret.txt', b'')],
     [('read', b'//../outside/secret.txt', b'')],
     [('write', b'//outside/new', b'')],
     [('symlink', b'//outside', b'/l'), ('read', b'/l/secret.txt', b'')],
     [('symlink', b'../outside', b'/l'), ('read', b'/l/secret.txt', b'')],
     [('symlink', b'../../outside', b'/sub/l'), ('read', b'/sub/l/secret.txt', b'')],
+    [('symlink', b'../root-private', b'/l'), ('read', b'/l/secret.txt', b'')],
+    [('symlink', b'../../root2', b'/sub/l'), ('write', b'/sub/l/new2', b'')],
+    [('symlink', b'../root-private/secret.txt', b'/l'), ('read', b'/l', b'')],
+    [('read', b'/../root-private/secret.txt', b'')],
+    [('realpath', b'/../root2', b''), ('listdir', b'/../root2', b'')],
     [('link', b'//outside/secret.txt', b'/hl'), ('read', b'/hl', b'')],
     [('mkdir', b'//outside/newdir', b'')],
     [('rename', b'/f', b'//outside/stolen')],
